@@ -10,6 +10,7 @@ import (
 
 	"github.com/hashicorp/go-memdb"
 
+	"github.com/hashicorp/consul/agent/consul/state"
 	"github.com/hashicorp/consul/agent/structs"
 	"github.com/hashicorp/consul/api"
 	"github.com/hashicorp/consul/internal/verifmc/cmdlib"
@@ -34,6 +35,8 @@ type part struct {
 	// staleRow: the verb presents an index older than the row's current one; the row is found in this table by this
 	// substring. If the row exists the whole transaction must fail.
 	staleTable, staleRow string
+	// rule: for a guard verb, the documented verdict on a given store (true = the guard passes)
+	rule func(st *state.Store) bool
 }
 
 type pre struct {
@@ -113,6 +116,16 @@ func Run(c *ev.Ctx) {
 			p.read = verb == api.KVGet || verb == api.KVGetTree || verb == api.KVGetOrEmpty
 			p.guard = verb == api.KVCheckNotExists || verb == api.KVCheckSession
 			p.indexed = verb == api.KVCheckIndex
+			switch verb {
+			case api.KVCheckNotExists:
+				p.rule = func(st *state.Store) bool { _, e, _ := st.KVSGet(nil, key, nil); return e == nil }
+			case api.KVCheckSession:
+				// passes iff the key exists and is held by exactly the named session
+				p.rule = func(st *state.Store) bool {
+					_, e, _ := st.KVSGet(nil, key, nil)
+					return e != nil && e.Session == cmdlib.SessionIDs[sess]
+				}
+			}
 		default:
 			op := sp.Op()
 			p.equiv = &op
@@ -254,6 +267,39 @@ func Run(c *ev.Ctx) {
 				t.Violate("C05:result-type:"+t.Op.Kind, "result is not a TxnResponse: "+t.Result)
 				return
 			}
+			// a guard in first position is judged on the pre-state by the documented rule, whatever else the list holds
+			// (an RPC endpoint that refused the request in its pre-checks evaluated no guard at all)
+			if r := parts[l.idx[0]].rule; r != nil && t.W.LastApplies > 0 {
+				want := r(p.clone().Store())
+				got := true
+				for _, e := range resp.Errors {
+					if e.OpIndex == 0 {
+						got = false
+					}
+				}
+				if got != want {
+					t.Violate(fmt.Sprintf("C05:guard-verdict-differs-from-its-rule:%s:passes=%v", parts[l.idx[0]].tp.Kind, got),
+						fmt.Sprintf("%s in first position: the guard %s, by its documented rule on the state before the transaction it %s",
+							parts[l.idx[0]].tp.Name, map[bool]string{true: "passed", false: "failed"}[got], map[bool]string{true: "passes", false: "fails"}[want]))
+				}
+			}
+			// a conditional verb in first position whose index does not match the pre-state must fail (one direction
+			// only: a matching index may still be refused for other reasons)
+			if t.W.LastApplies > 0 {
+				ref := p.clone()
+				if o, ok := parts[l.idx[0]].tp.Build(ref); ok {
+					if why := casMustFail(ref.Store(), o); why != "" {
+						failed0 := false
+						for _, e := range resp.Errors {
+							failed0 = failed0 || e.OpIndex == 0
+						}
+						if !failed0 {
+							t.Violate("C05:conditional-operation-passed-although-its-index-does-not-match:"+parts[l.idx[0]].tp.Kind,
+								fmt.Sprintf("%s in first position was not refused although %s", parts[l.idx[0]].tp.Name, why))
+						}
+					}
+				}
+			}
 			idx := t.W.Next - 1
 			post := t.W.Dump(full)
 			if len(resp.Errors) > 0 {
@@ -272,6 +318,9 @@ func Run(c *ev.Ctx) {
 				}
 				if checkWatch && fired(p.ws) {
 					t.Violate("C05:failed-but-woke-watcher:"+failKinds(l.idx, parts, resp), "failed transaction woke a blocked watcher")
+				}
+				if _, why, msg := stepwise(p.clone(), t.W, l.idx, parts, masked, false); why != "" {
+					t.Violate(fmt.Sprintf("C05:%s:%s", why, failKinds(l.idx, parts, resp)), msg)
 				}
 				// converse, only where no operation carries a raft index (those resolve differently when applied one
 				// by one) and the list has a guard: if every operation succeeds alone, in order, and every guard
@@ -346,6 +395,10 @@ func Run(c *ev.Ctx) {
 					}
 				}
 			}
+			// stepwise: the very same operations (built against the pre-state) as one-operation transactions, in order
+			if tabs, why, msg := stepwise(p.clone(), t.W, l.idx, parts, masked, true); why != "" {
+				t.Violate(fmt.Sprintf("C05:%s:tables=%v:%s", why, tabs, t.Op.Kind), msg)
+			}
 			// differential: same ops as stand-alone commands, in order, on a clone of the pre-state
 			if tabs, why := differential(p.clone(), t.W, l.idx, parts, masked); why != "" {
 				t.Violate(fmt.Sprintf("C05:%s:tables=%v:%s", why, tabs, t.Op.Kind), differentialMsg)
@@ -359,8 +412,8 @@ func Run(c *ev.Ctx) {
 			if checkWatch {
 				p.ws = watchAll(w)
 			}
-			ref := w.Clone(nil) // taken now, before the transaction is applied to w
-			p.cloneFn = func() *world.World { return ref }
+			base := w.Clone(nil) // taken now, before the transaction is applied to w; never written
+			p.cloneFn = func() *world.World { return base.Clone(nil) }
 			return p
 		}
 	}
@@ -539,4 +592,122 @@ func differential(ref, w *world.World, idx []int, parts []part, masked *dump.Opt
 		return tabs, "not-equal-to-sequential"
 	}
 	return nil, ""
+}
+
+// stepwise applies the operations of a transaction - the same concrete operations, index arguments
+// resolved against the pre-state exactly as in the transaction - as one-operation transactions, in
+// order, to ref (a clone of the pre-state). A transaction is its operations in sequence or nothing:
+// it must succeed iff every step does, and then leave the same data (indexes masked).
+func stepwise(ref, w *world.World, idx []int, parts []part, masked *dump.Options, committed bool) ([]string, string, string) {
+	var ops []*structs.TxnOp
+	for _, i := range idx {
+		o, ok := parts[i].tp.Build(ref)
+		if !ok {
+			return nil, "", ""
+		}
+		ops = append(ops, o)
+	}
+	for k, o := range ops {
+		ref.ApplyReq("step:"+parts[idx[k]].tp.Name, structs.TxnRequestType, &structs.TxnRequest{Datacenter: cmdlib.DC, Ops: structs.TxnOps{o}})
+		resp, isResp := ref.LastRaw.(structs.TxnResponse)
+		if !isResp {
+			return nil, "", ""
+		}
+		if len(resp.Errors) > 0 {
+			if committed {
+				return nil, "committed-although-a-step-fails-in-sequence:" + parts[idx[k]].tp.Kind,
+					"transaction committed although operation " + parts[idx[k]].tp.Name + " fails when the operations are applied one after the other (" + resp.Errors[0].What + ")"
+			}
+			return nil, "", ""
+		}
+	}
+	if !committed {
+		return nil, "failed-although-every-step-succeeds-in-sequence", "transaction failed although each of its operations succeeds when they are applied one after the other as one-operation transactions"
+	}
+	a, b := w.Dump(masked), ref.Dump(masked)
+	a["usage"], b["usage"] = nonZeroUsage(a["usage"]), nonZeroUsage(b["usage"])
+	delete(a, "index")
+	delete(b, "index")
+	if tabs := world.DiffTables(a, b); len(tabs) > 0 {
+		return tabs, "not-equal-to-its-operations-in-sequence", "transaction result differs from applying its operations one after the other:\n" + world.Diff(b, a, 8)
+	}
+	return nil, "", ""
+}
+
+// casMustFail: the documented condition of the catalog / KV conditional verbs on the given store. Returns
+// why the operation has to be refused, or "" when the condition holds or the verb is not conditional.
+func casMustFail(st *state.Store, o *structs.TxnOp) string {
+	mismatch := func(what string, supplied uint64, exists bool, cur uint64, isDelete bool) string {
+		switch {
+		case isDelete && !exists:
+			return "" // nothing to delete: vacuous
+		case !isDelete && supplied == 0 && exists:
+			return fmt.Sprintf("index 0 means create-only and %s exists", what)
+		case supplied != 0 && !exists:
+			return fmt.Sprintf("it presents index %d and %s does not exist", supplied, what)
+		case exists && supplied != 0 && supplied != cur:
+			return fmt.Sprintf("it presents index %d and %s is at %d", supplied, what, cur)
+		case isDelete && exists && supplied == 0:
+			return fmt.Sprintf("it presents index 0 and %s is at %d", what, cur)
+		}
+		return ""
+	}
+	switch {
+	case o.KV != nil:
+		_, e, _ := st.KVSGet(nil, o.KV.DirEnt.Key, nil)
+		var cur uint64
+		if e != nil {
+			cur = e.ModifyIndex
+		}
+		switch o.KV.Verb {
+		case api.KVCAS:
+			return mismatch("the key", o.KV.DirEnt.ModifyIndex, e != nil, cur, false)
+		case api.KVDeleteCAS:
+			return mismatch("the key", o.KV.DirEnt.ModifyIndex, e != nil, cur, true)
+		case api.KVCheckIndex:
+			if e == nil {
+				return "the key does not exist"
+			}
+			if o.KV.DirEnt.ModifyIndex != cur {
+				return fmt.Sprintf("it presents index %d and the key is at %d", o.KV.DirEnt.ModifyIndex, cur)
+			}
+		}
+	case o.Node != nil:
+		_, n, _ := st.GetNode(o.Node.Node.Node, nil, o.Node.Node.PeerName)
+		var cur uint64
+		if n != nil {
+			cur = n.ModifyIndex
+		}
+		switch o.Node.Verb {
+		case api.NodeCAS:
+			return mismatch("the node", o.Node.Node.ModifyIndex, n != nil, cur, false)
+		case api.NodeDeleteCAS:
+			return mismatch("the node", o.Node.Node.ModifyIndex, n != nil, cur, true)
+		}
+	case o.Service != nil:
+		_, sv, _ := st.NodeService(nil, o.Service.Node, o.Service.Service.ID, &o.Service.Service.EnterpriseMeta, o.Service.Service.PeerName)
+		var cur uint64
+		if sv != nil {
+			cur = sv.ModifyIndex
+		}
+		switch o.Service.Verb {
+		case api.ServiceCAS:
+			return mismatch("the service instance", o.Service.Service.ModifyIndex, sv != nil, cur, false)
+		case api.ServiceDeleteCAS:
+			return mismatch("the service instance", o.Service.Service.ModifyIndex, sv != nil, cur, true)
+		}
+	case o.Check != nil:
+		_, hc, _ := st.NodeCheck(o.Check.Check.Node, o.Check.Check.CheckID, &o.Check.Check.EnterpriseMeta, o.Check.Check.PeerName)
+		var cur uint64
+		if hc != nil {
+			cur = hc.ModifyIndex
+		}
+		switch o.Check.Verb {
+		case api.CheckCAS:
+			return mismatch("the check", o.Check.Check.ModifyIndex, hc != nil, cur, false)
+		case api.CheckDeleteCAS:
+			return mismatch("the check", o.Check.Check.ModifyIndex, hc != nil, cur, true)
+		}
+	}
+	return ""
 }
